@@ -223,7 +223,12 @@ PutCas(t) ==      \* cas_bin(null -> new node)
           /\ Ghost(o.k, [v |-> o.v, tag |-> o.tag, pl |-> o.pl])
           /\ UNCHANGED <<ntabs, table, nextTable, lockOwner>> /\ UnchCtl
           /\ UNCHANGED <<res, before, doneOps, idx, mig, pubs, fins, joins>>
-     ELSE /\ Goto(t, "LoadBin") /\ UNCHANGED loc
+     ELSE \* the failed CAS hands back the bin's current (non-null) value: no reload (bin = changed.current)
+          LET b == tabs[tb].bins[i] IN
+          /\ SetLoc(t, [loc[t] EXCEPT !.b = b, !.p = b])
+          /\ Goto(t, IF b = FWD THEN "HLoadNt"
+                     ELSE IF o.op = "try_insert" /\ node[b].key = o.k THEN "TiFast"
+                     ELSE "Lock")
           /\ UnchHeap /\ UnchTab /\ UnchCtl /\ UnchHist
 
 TiFast(t) ==      \* try_insert: head matches; head.value.load without the lock (D8)
@@ -421,8 +426,12 @@ XSwapNext(t) ==   \* self.next_table.swap(new table); assert!(now_garbage.is_nul
   /\ UNCHANGED table /\ UnchHeap /\ UnchCtl /\ UnchHist
 XStoreTi(t) ==
   /\ pc[t] = "XStoreTi"
-  /\ transferIndex' = loc[t].n /\ Goto(t, "XClaim") /\ UNCHANGED loc
+  /\ transferIndex' = loc[t].n /\ Goto(t, "XLoadNt") /\ UNCHANGED loc
   /\ UNCHANGED <<sizeCtl, count>> /\ UnchHeap /\ UnchTab /\ UnchHist
+XLoadNt(t) ==     \* the initiator re-reads what it just published: next_table_ptr = self.next_table.load()
+  /\ pc[t] = "XLoadNt"
+  /\ SetLoc(t, [loc[t] EXCEPT !.nt = nextTable]) /\ Goto(t, "XClaim")
+  /\ UnchHeap /\ UnchTab /\ UnchCtl /\ UnchHist
 XClaim(t) ==      \* while advance { i -= 1; ...; transfer_index.load }
   /\ pc[t] = "XClaim"
   /\ LET l == loc[t] IN
@@ -650,7 +659,7 @@ Step(t) ==
    \/ LoadBin(t) \/ GetFwd(t) \/ PutCas(t) \/ TiFast(t) \/ Walk(t) \/ LoadVal(t) \/ Lock(t) \/ Reval(t)
    \/ AcFetch(t) \/ AcLoadSc(t) \/ AcLoadTable(t) \/ AcLoadNt(t) \/ AcLoadTi(t) \/ AcCasJoin(t) \/ AcCasStart(t) \/ AcReload(t)
    \/ HLoadNt(t) \/ HLoopNt(t) \/ HLoopTable(t) \/ HLoadSc(t) \/ HLoadTi(t) \/ HCasJoin(t) \/ HExitA(t)
-   \/ XSwapNext(t) \/ XStoreTi(t) \/ XClaim(t) \/ XCasTi(t) \/ XCheck(t) \/ XLoadScLeave(t) \/ XCasLeave(t)
+   \/ XSwapNext(t) \/ XStoreTi(t) \/ XLoadNt(t) \/ XClaim(t) \/ XCasTi(t) \/ XCheck(t) \/ XLoadScLeave(t) \/ XCasLeave(t)
    \/ XLoadBin(t) \/ XAdv(t) \/ XCasFwd(t) \/ XLock(t) \/ XReval(t) \/ XStoreLo(t) \/ XStoreHi(t) \/ XStoreFwd(t)
    \/ XClearNext(t) \/ XSwapTable(t) \/ XStoreSc(t)
 Next == \E t \in Threads : Step(t)
